@@ -60,6 +60,10 @@ def pipeD (op : String) (args : List Nat) : Option String :=
       -- the model's processing function is an arbitrary total function: its stack need is not observable
       | [_, n, _] => ok [n]
       | _ => reject
+  | "pipemany" => some <| match args with
+      -- a pipe is the sequential map whatever other pipes exist: the model has no state shared between pipes
+      | [_, _, n] => ok [n]
+      | _ => reject
   | "pipeidle" => some <| match args with
       -- consumed items: min k n (the lookahead bound itself is `pipe_lookahead`; on the real code it is a timed observation)
       | [_, n, k, _] => ok [min k n]
@@ -69,6 +73,10 @@ def pipeD (op : String) (args : List Nat) : Option String :=
       | _ => reject
   | "bufdrop" => some <| match args with
       | [_, k, n] => ok [if n == 0 then k else min k n]
+      | _ => reject
+  | "pipepanic3" => some <| match args with
+      -- the same verdict whatever other pipes were created or dropped before
+      | [_, n, j] => if j < n then "ok exit 1" else "ok exit 0"
       | _ => reject
   | "pipepanic2" => some <| match args with
       -- the same verdict whatever ran in the process before
